@@ -32,6 +32,11 @@ def slim(case, clause):
          "failed_steps": [s for s in case["steps"] if not s["ok"]]}
     if kind in ("lost", "added", "changed"):
         d["diff"] = [x for x in case.get("diffs") or [] if "%s:%s/%s" % (x["kind"], x["store"], x["class"]) == clause]
+    elif kind.startswith("diverge@"):
+        sched, probe = clause[len("diverge@"):].split(":", 1)
+        d["restart_schedule"] = [{"schedule": r["schedule"], "import_panic": r.get("import_panic"),
+                                  "probe": [p for p in r.get("probes") or [] if p["name"] == probe]}
+                                 for r in case.get("restart_schedules") or [] if r["schedule"]["name"] == sched]
     elif kind == "diverge":
         d["probe"] = [p for p in case.get("probes") or [] if "diverge:" + p["name"] == clause]
     elif kind == "export2":
@@ -60,6 +65,7 @@ def run(R):
                  "the hand models follow the tree through regenerated flags (which keeper functions InitGenesis reaches: role-blacklist loop, queue rebuild, id counters; the version string x/upgrade exports; nil-map writes on export paths); proposal block-height conditions are not modelled",
                  "the re-imported application is started with InitialHeight = exported height + 1 and the exported block time, as a network restart from the export does",
                  "only if InitChain refuses the export with 'invalid genesis version' (regression of 0bb355b) does the harness rewrite the version string so that the deeper comparison can run; the refusal itself is reported as import-panic:upgrade/version",
+                 "restart schedules: besides the same-time restart every history is also re-imported under one (history 0 and the thorough tier: all) of later-7s, later-35d (beyond every pending deadline of the populated states), higher-1000 (InitialHeight + 1000) and both; a freshly replayed original chain and the re-imported chain then get the same further blocks at the same later times; balances are not compared under a height shift (block rewards depend on the height through the validator-performance window)",
                  "auth / bank / params / consensus (SDK modules) are compared raw, not modelled"]
     R.gen("gen_genesis", "GenesisCoverage.v")
     R.coq_files(FILES)
